@@ -209,6 +209,16 @@ func cmdCheck(args []string) {
 			}
 		}
 	}
+	if lrep := genLemmas(l.prog, l.cs, id); len(lrep.Obls) > 0 || lrep.Err != "" {
+		if lrep.Err != "" {
+			genErrs = append(genErrs, "lemma: "+lrep.Err)
+		}
+		lfc := &FuncContract{}
+		for _, o := range lrep.Obls {
+			obls = append(obls, o)
+			oblFC[o] = lfc
+		}
+	}
 	genS := time.Since(t0).Seconds()
 	isKnownObl := func(o *Obligation) bool {
 		for _, kf := range known.Findings {
